@@ -99,7 +99,27 @@ NOALIAS = [
 ]
 
 
+# two tables with the same bare name in different schemas; the first is the qualifier of the reference, with or without alias
+TWINS = [
+    ("insert into s1.tgt select t.c from s1.t join s2.t as {X} on t.id = {X}.id", {("s1.t.c", "s1.tgt.c")}),
+    ("insert into s1.tgt select {Y}.c from s1.t as {Y} join s2.t as {X} on {Y}.id = {X}.id", {("s1.t.c", "s1.tgt.c")}),
+    ("insert into s1.tgt select {X}.c from s1.t join s2.t as {X} on t.id = {X}.id", {("s2.t.c", "s1.tgt.c")}),
+]
+# UPDATE ... FROM a derived table joined with a real table: the alias INSIDE the derived table is local to it, whatever it is
+# spelled like (incl. the bare name or the alias of the outer table)
+UPDATES = [
+    ("update tgt set x = t3.y from (select {A}.y, {A}.id from t2 as {A}) as s join t3 on s.id = t3.id", {("<default>.t3.y", "<default>.tgt.x")}),
+    ("update tgt set x = b.y from (select {A}.y, {A}.id from t2 as {A}) as s join t3 as b on s.id = b.id", {("<default>.t3.y", "<default>.tgt.x")}),
+]
+
+
 def sibling_cases(pool):
+    for k, (tpl, exp) in enumerate(TWINS):
+        for x, y in itertools.permutations(["x", "y", "q1", "Xy"], 2):
+            yield f"twins{k}/X={x},Y={y}", tpl.format(X=x, Y=y), exp
+    for k, (tpl, exp) in enumerate(UPDATES):
+        for a in ("a", "Qz", "t3", "b", "s2"):
+            yield f"update{k}/A={a}/ansi-only", tpl.format(A=a), exp
     for k, (tpl, exp) in enumerate(SAME_SCOPE):
         for x in ("c", "q1", "tb", "Cte"):
             for a, b in itertools.permutations(["c1", "c2", "i", "tb", "Q"], 2):
@@ -183,6 +203,8 @@ def main():
                     fails.append({"id": f"{name}/{tag}/{dialect}", "clause": "tables_unchanged_by_renaming", "sql": sql, "dialect": dialect, "renaming": tag, "got": tabs, "want": want_tabs})
     for cid, sql, exp in sibling_cases(pool):
         for dialect in ("ansi", "non-validating"):
+            if dialect == "non-validating" and cid.endswith("/ansi-only"):
+                continue  # UPDATE ... FROM is analysed by the sqlfluff extractors only
             evals += 1
             try:
                 r = LineageRunner(sql, dialect=dialect)
